@@ -180,6 +180,7 @@ def run(rep: Report, tier: str) -> None:
 	rule_eviction_pattern(rep, idx)
 	rule_content_fingerprint(rep, idx)
 	rule_cache_file_complete(rep, idx)
+	rule_stamps_fresh(rep, idx)
 	rule_key_sources_state(rep, idx)
 	rep.extra_coverage['effects_reached'] = total_effects
 	rep.extra_coverage['entries'] = [e.qualname for e in entries]
@@ -490,3 +491,27 @@ def rule_cache_file_complete(rep: Report, idx, rule_id: str = 'C05/cache-file-ex
 				r.check(protected or renamed, key + ':partial-file-removed', (cache.relpath, w.lineno), (f'`{unparse(inside[0])[:50]}` runs while the cache file is already open for writing, and nothing removes the file when it raises — the parser on an unparsable module leaves an empty cache file, `get` finds it on the next run and answers with the decode error of the loader (Errors.Fatal / a raw JSONDecodeError through the parser) instead of Errors.Syntax; ' if inside else '') + f'`{unparse(writes[0])[:60]}` creates the cache file before its content is written and nothing removes it when the serialisation fails (a RecursionError while dumping a deeply nested tree): the zero-byte file is found by every later run, which fails with a decode error instead of repeating the original outcome — the cache has changed the result', unparse(w)[:120])
 	if n_open == 0:
 		r.skip('CachedProxy', cp.where, 'CachedProxy no longer opens a file for writing')
+
+
+def rule_stamps_fresh(rep: Report, idx) -> None:
+	"""The syntax-tree cache is keyed by the modification time of the source (`sources.mtime(path)` in the identity). The stamp must be the file's CURRENT
+	one whenever the identity is built: a stamp remembered by the loader for the life of the process makes the identity of an edited file equal to the
+	identity of its first version, and CacheProvider hands out the tree of the first parse — a module edited while the process runs (the modules an
+	interactive session imports) keeps its old output after unload + load, and text that became unparsable is not reported."""
+	r = rep.rule('C05/identity-stamps-are-read-fresh', 'FileLoader.mtime returns os.path.getmtime(<resolved path>) on every call: no return hands out a value remembered in an attribute of the loader', floor=1)
+	m = idx.mod('rogw/tranp/app/loader.py')
+	cls = m.cls('FileLoader')
+	f = cls.method('mtime') if cls else None
+	if f is None:
+		r.skip('FileLoader.mtime', (m.relpath, 1), 'FileLoader.mtime vanished')
+		return
+	rets = [n for n in walk_no_nested(f.node) if isinstance(n, ast.Return) and n.value is not None]
+	if not rets:
+		r.skip('FileLoader.mtime', f.where, 'FileLoader.mtime has no return')
+	for ret in rets:
+		v = deref(f.node, ret.value) if isinstance(ret.value, ast.Name) else ret.value
+		remembered = [x for x in ast.walk(v) if isinstance(x, ast.Attribute) and isinstance(x.value, ast.Name) and x.value.id in ('self', 'cls')]
+		fresh = any(isinstance(x, ast.Call) and unparse(x.func) in ('os.path.getmtime', 'os.stat') for x in ast.walk(v))
+		# a local assigned from getmtime on this path and ALSO stored in the memo is fine only if it is what gets returned on every path: a return of the
+		# memo entry itself is the stale one
+		r.check(fresh and not remembered, f'return:{unparse(ret.value)[:40]}', (m.relpath, ret.lineno), f'FileLoader.mtime returns `{unparse(ret.value)[:60]}`' + (', a value remembered in the loader' if remembered else ', which is not read from the file system here') + ': the modification time of a file is then fixed at its first use for the life of the process; the syntax-tree cache is keyed by it, so after an edit + unload + load the module is served from the tree of the first parse (old output; no Errors.Syntax for text that became unparsable), while a run with the cache disabled parses the new text', unparse(ret)[:100])
